@@ -13,10 +13,13 @@ ENV = dict(os.environ)
 ENV["CARGO_NET_OFFLINE"] = "true"
 
 
-def sh(cmd, cwd=None, timeout=None, inp=None):
+def sh(cmd, cwd=None, timeout=None, inp=None, env=None):
     """Run a command, return (rc, stdout+stderr). rc = 124 on timeout."""
+    e = dict(ENV)
+    if env:
+        e.update(env)
     try:
-        r = subprocess.run(cmd, cwd=cwd, input=inp, capture_output=True, timeout=timeout, env=ENV)
+        r = subprocess.run(cmd, cwd=cwd, input=inp, capture_output=True, timeout=timeout, env=e)
         return r.returncode, (r.stdout + r.stderr).decode("utf-8", "replace")
     except subprocess.TimeoutExpired as e:
         out = (e.stdout or b"") + (e.stderr or b"")
@@ -107,9 +110,10 @@ class Driver:
 class Harness:
     """Implementation side: the Rust crate calling /repo in-process (feature `verif`)."""
 
-    def __init__(self, profile="debug"):
+    def __init__(self, profile="debug", binary="verif-harness", env=None):
         self.profile = profile
-        self.bin = os.path.join(HARNESS, "target", profile, "verif-harness")
+        self.bin = os.path.join(HARNESS, "target", profile, binary)
+        self.env = env
 
     def build(self):
         cmd = ["cargo", "build", "--offline"] + (["--release"] if self.profile == "release" else [])
@@ -117,11 +121,11 @@ class Harness:
         return rc == 0, out
 
     def run(self, suite, seed, count, outdir, timeout=3000):
-        rc, out = sh([self.bin, suite, str(seed), str(count), outdir], timeout=timeout)
+        rc, out = sh([self.bin, suite, str(seed), str(count), outdir], timeout=timeout, env=self.env)
         return rc, out
 
     def replay(self, name, reqfile, outdir, timeout=600):
-        rc, out = sh([self.bin, "replay", name, reqfile, outdir], timeout=timeout)
+        rc, out = sh([self.bin, "replay", name, reqfile, outdir], timeout=timeout, env=self.env)
         return rc, out
 
 
